@@ -339,8 +339,9 @@ pub fn c_v9(p: &v9::V9) -> CVar {
                     flat.push((k, format!("{:?}", of.field_type), CVal::Bytes(of.field_value.clone())));
                     k += 1;
                 }
-                // the structure can hold exactly one record
-                CBody::OptData(flat, Some(1), d.padding.clone())
+                // the structure can hold exactly one record (none if no field was decoded)
+                let n = if flat.is_empty() { 0 } else { 1 };
+                CBody::OptData(flat, Some(n), d.padding.clone())
             }
         };
         sets.push(CSet { id: s.header.flowset_id, len: s.header.length, body });
